@@ -3,18 +3,4 @@
 # development (full .vo build), the extracted OCaml runner.
 set -e
 cd "$(dirname "$0")"
-export GOFLAGS=-mod=mod GOPROXY=off GOSUMDB=off GOTOOLCHAIN=local
-python3 - <<'PY'
-import sys, os
-sys.argv = ["check"]
-import importlib.machinery, importlib.util
-loader = importlib.machinery.SourceFileLoader("check", os.path.join(os.getcwd(), "check"))
-spec = importlib.util.spec_from_loader("check", loader)
-m = importlib.util.module_from_spec(spec); loader.exec_module(m)
-os.makedirs(m.WORK, exist_ok=True)
-m.build_harness(); m.regenerate(); m.write_coqproject()
-rc, out = m.coq_make([])
-print(out[-2000:])
-if rc != 0: sys.exit(1)
-m.build_runner()
-PY
+exec ./check build
